@@ -28,6 +28,17 @@ def site_problems(ctx, n):
                                 dict(zone="B", name="c", t_supply=50.0, t_target=120.0, heat_flow=140.0, dt_cont=5.0, htc=1.0)],
                        utilities=[dict(name="MP", type="Both", t_supply=135.0, t_target=134.0, heat_flow=0.0, dt_cont=0.0, htc=1.0, price=1.0)]),
                   dict(zones=2, shapes=["recovery"], regime="both")))
+    S = lambda z, nm, a, b, q, dt: dict(zone=z, name=nm, t_supply=a, t_target=b, heat_flow=q, dt_cont=dt, htc=1.0)          # noqa: E731
+    U = lambda nm, ty, t, dt: dict(name=nm, type=ty, t_supply=t, t_target=t, heat_flow=0.0, dt_cont=dt, htc=1.0, price=1.0)   # noqa: E731
+    # deterministic witnesses of the open findings (their KNOWN-FINDING lines appear on every run)
+    probs.append((dict(streams=[S("P0", "S0_0", 100.0, 99.99925, 10.0, 0.0), S("P0", "S1_0", 140.0, 130.0, 10.0, 0.0),
+                                S("P0", "S2_0", 110.0, 155.0, 56.25, 10.0), S("P0", "S3_0", 125.0, 210.0, 106.25, 5.0)],
+                       utilities=[U("TopU", "Both", 225.0, 10.0), U("BotU", "Cold", 99.99925, 0.0)]),
+                  dict(zones=1, shapes=["D24"], regime="witness")))
+    probs.append((dict(streams=[S("P0", "S0_0", 255.0, 145.0, 110.0, 0.0), S("P0", "C1_0", 145.0, 255.0, 55.0, 2.5),
+                                S("P0", "S2_0", 60.0, 59.999875, 40.0, 0.0), S("P0", "S3_0", 145.0, 100.0, 67.5, 10.0)],
+                       utilities=[U("TopU", "Hot", 247.5, 2.5), U("MidU", "Both", 158.7499375, 2.5), U("BotU", "Both", 57.499875, 10.0)]),
+                  dict(zones=1, shapes=["D44"], regime="witness")))
     for i in range(n):
         if i % 4 == 0:
             probs.append(pc.gen_header_problem(ctx.rng))      # generation/use at nearly the same utility level
